@@ -1,0 +1,29 @@
+//go:build verif
+
+// Round 5, area J: WaitGroupWrapper.Wrap - goroutine accounting (C05 C06: NSQD.Exit waits for every goroutine started through Wrap before it
+// releases the data path). Checked by nsqvc. Comment-only file. The WaitGroup calls are assumed contracts scoped to this package (lib/trusted/r5J.spec):
+// they record the counter operations in FREE ghosts (outside every frame, so no caller's frame changes: callers used to see Wrap as `benign`).
+
+package util
+
+// Wrap: the counter is raised by exactly one, on this wrapper's WaitGroup, BEFORE the goroutine is started (otherwise a concurrent Wait could
+// return while the goroutine is still to run); exactly one goroutine is started; the callback is not run synchronously by Wrap itself.
+//@ func (w *WaitGroupWrapper) Wrap(cb func())
+//@   props C05 C06
+//@   nochan
+//@   requires[wrapper] w != nil
+//@   ensures[added-one-on-this-group] r5JWgAdds == old(r5JWgAdds) + 1 && r5JWgAddSum == old(r5JWgAddSum) + 1 && r5JWgAddOn == &w.WaitGroup
+//@   ensures[one-goroutine-started-after-the-add] r5JWrapSpawns == old(r5JWrapSpawns) + 1 && r5JWrapAddsAtSpawn == old(r5JWgAdds) + 1
+//@   ensures[no-done-by-wrap-itself] r5JWgDones == old(r5JWgDones)
+//   every other free ghost is left alone (callers used to see Wrap as `benign`: nothing changes for them)
+//@   keeps gMarshalArg, gMarshalErr, gMarshalOut, gMarshals, gQuiesced, pumpKicked, pumpKicks, r4ABytesBuf, r4ABytesData, r4AGotAt, r4AGotBuf, r4APoolGets, r4APoolPuts, r4APutBuf, r4BExitTestChan, r4BExitTestHeld, r4BExitTestSaw, r4BExitTests, r4CLoaded, r5JBufResetBuf, r5JBufResets, r5JPoolGetOn, r5JPoolGets, r5JPoolPutOn, r5JPoolPutSawResets, r5JPoolPutVal, r5JPoolPuts, r5JWgDoneOn, r5JWgDones, r5JLogOutputs, r5JLogOutputOn, r5JLogOutputDepth
+//@   modifies
+
+// The goroutine body `func() { cb(); w.Done() }` cannot be verified: the call of cb is opaque and the engine then also forgets the captured
+// cell of `w` (ENGINE GAP J2 in the notes), so `w.Done()` after it is not provably nil-safe. The item below ASSUMES NOTHING about any state (no
+// ensures, never called synchronously); it only carries the `onspawn` records that Wrap's [one-goroutine-started-after-the-add] reads.
+//@ func (w *WaitGroupWrapper) Wrap$1()
+//@   props C05 C06
+//@   trusted
+//@   onspawn r5JWrapSpawns := r5JWrapSpawns + 1
+//@   onspawn r5JWrapAddsAtSpawn := r5JWgAdds
